@@ -111,7 +111,7 @@ func findElementAtPosition(journal *ast.Journal, pos protocol.Position) *hoverEl
 
 		payee := getPayeeOrDescription(tx)
 		if payee != "" {
-			payeeRange := estimatePayeeRange(tx, payee)
+			payeeRange := tx.PayeeRange
 			if positionInRange(pos, payeeRange) {
 				return &hoverElement{
 					context:     HoverPayee,
@@ -173,25 +173,6 @@ func getPayeeOrDescription(tx *ast.Transaction) string {
 		return tx.Payee
 	}
 	return tx.Description
-}
-
-func estimatePayeeRange(tx *ast.Transaction, payee string) ast.Range {
-	startCol := tx.Date.Range.End.Column + 1
-	if tx.Status != ast.StatusNone {
-		startCol += 2
-	}
-
-	payeeLen := lsputil.UTF16Len(payee)
-	return ast.Range{
-		Start: ast.Position{
-			Line:   tx.Date.Range.Start.Line,
-			Column: startCol,
-		},
-		End: ast.Position{
-			Line:   tx.Date.Range.Start.Line,
-			Column: startCol + payeeLen,
-		},
-	}
 }
 
 func buildHoverContentWithTransactions(element *hoverElement, balances analyzer.AccountBalances, transactions []ast.Transaction) string {
